@@ -99,3 +99,40 @@ def run(unit, em):
             else:
                 name = vt[hit[0]]['decl'].get('n') or '?'
                 em.violation(r, txt, 'the accumulator `%s` was filled at line %d on a path to this return, but the returned value does not derive from it: the accumulated states/transitions/final marks are discarded' % (name, unit.loc(hit[1])[1]), 'ret')
+
+
+# ---- clause `trimchain`: useless-state removal ends in the top-down pass on every return
+def run_trimchain(unit, em):
+    """RemoveUselessStates = bottom-up productivity pass, then RemoveUnreachableStates (top-down) on what is left: a state
+    can be productive and still unreachable from every final state.  Every return of the explicit tree core's
+    RemoveUselessStates (also the cheap path that shares the input's rule store) returns `<acc>.RemoveUnreachableStates(..)`."""
+    for fn in unit.functions:
+        if fn.body is None or fn.q.replace('VATA::', '') != 'ExplicitTreeAutCore::RemoveUselessStates':
+            continue
+        for r in fn.walk(lambdas=False):
+            if r['k'] != 'ReturnStmt' or not (r.get('ch') or [None])[0]:
+                continue
+            e = strip(r['ch'][0])
+            while e is not None and e['k'] in ('CXXConstructExpr', 'CXXTemporaryObjectExpr') and len(e.get('args', [])) == 1:
+                e = strip(e['args'][0])
+            txt = unit.text(r, 70)
+            if e is not None and e['k'] == 'DeclRefExpr':
+                v = var_table(fn).get(e.get('d'))
+                srcs = [strip(s) for s in __import__('rules.prov', fromlist=['local_sources']).local_sources(fn, e['d'])] if v and v['kind'] == 'local' else []
+                calls = [s for s in srcs if s is not None]
+                while calls and all(s['k'] in ('CXXConstructExpr', 'CXXTemporaryObjectExpr') and len(s.get('args', [])) == 1 for s in calls):
+                    calls = [strip(s['args'][0]) for s in calls]
+                if calls and all(s is not None and s['k'] == 'CXXMemberCallExpr' and method_name(s) == 'RemoveUnreachableStates' for s in calls):
+                    e = calls[0]
+            if e is not None and e['k'] == 'CXXMemberCallExpr' and method_name(e) == 'RemoveUnreachableStates':
+                em.ok(r, txt, 'returns the result of the top-down pass', 'trimchain')
+            else:
+                em.violation(r, txt, 'this return hands back the bottom-up result without RemoveUnreachableStates(): productive states and rules that no final state can reach stay in the automaton', 'trimchain')
+
+
+_run_acc = run
+
+
+def run(unit, em):
+    _run_acc(unit, em)
+    run_trimchain(unit, em)
